@@ -104,8 +104,9 @@ def handleNilComplex (env : CEnv P O T V E) (c : CCfg P O T V) : Res V E :=
 /-- `validatePointer` (after 49e6e91, e584c0e): the validator decides first — container-level checks and every member
     schema; only when it accepted does an overwrite check get its pass over the pointer itself (`np` when it changed the
     pointer, else the validator's value stored through the caller's pointer). Without an overwrite nothing is stored: the
-    caller's own pointer when the validator handed back the same bits (`sameValue`), else a pointer to the validator's value.
-    `Res.ptr` carries the VALUE behind the pointer, so the last three arms are one (which pointer it is: C15). -/
+    caller's own pointer when the validator handed back the same bits (`sameValue`) or — /repo 3302475 — a map holding exactly
+    the caller's entries (`sameEntries`: what the caller's pointer refers to IS the validator's value then), else a pointer to
+    the validator's value. `Res.ptr` carries the VALUE behind the pointer, so the last four arms are one (which pointer it is: C15). -/
 def validatePointer (env : CEnv P O T V E) (c : CCfg P O T V) (v : V) : Res V E :=
   if !c.hasValidator then .ptr v
   else
